@@ -297,7 +297,7 @@ func (vp *Presentation) raw() (*rawPresentation, error) {
 	rp := &rawPresentation{
 		// TODO single value contexts should be compacted as part of Issue [#1730]
 		// Not compacting now to support interoperability
-		Context:      vp.Context,
+		Context:      contextToRaw(vp.Context, vp.CustomContext),
 		ID:           vp.ID,
 		Type:         typesToRaw(vp.Type),
 		Holder:       vp.Holder,
